@@ -92,9 +92,10 @@ Definition ref_ok (i : inst) (asg : assignment) (s : site) : bool :=            
   | [] => true
   | _ => if Qeqb (s_pcn s) 0 then Qleb e 0 else Qleb e (Qmax' (Qmax' (s_pcn s) (s_cov s)) (max_mut i (s_pos s)))
   end.
+Definition admissible_core (i : inst) (asg : assignment) : bool :=
+  sel_ok i asg && forallb (choice_ok i) asg && forallb (reads_ok asg) (i_muts i) && forallb (ref_ok i asg) (i_sites i).
 Definition admissible (i : inst) (asg : assignment) : bool :=
-  sel_ok i asg && forallb (choice_ok i) asg && forallb (reads_ok asg) (i_muts i) && forallb (ref_ok i asg) (i_sites i) &&
-  match phase_disagreement i asg with Some _ => true | None => false end.
+  admissible_core i asg && match phase_disagreement i asg with Some _ => true | None => false end.
 
 (* ---- exhaustive enumeration ---- *)
 Fixpoint sublists {A} (l : list A) : list (list A) :=
@@ -128,25 +129,42 @@ Definition candidates (i : inst) : list assignment := flat_map (expand i) (selec
 Definition n_candidates (i : inst) : Z :=
   zsum (map (fun sel => fold_right (fun a acc => Z.of_nat (length (options i a)) * acc) 1 sel) (selections i)).
 
-(* best score, number of assignments attaining it exactly, and the first such assignment *)
-Definition optimum (c : consts) (i : inst) : option (Q * Z * assignment) :=
+(* the tie-breaker part of the objective: sum over additions of (construction index / tie_den) *)
+Definition tie_extra (c : consts) (i : inst) (asg : assignment) : Q :=
+  qsum (map (fun kp : Z * (ainst * mutn) => if is_added asg (snd kp) then (inject_Z (fst kp) / c_minor_tie_den c)%Q else 0%Q)
+            (enumerate 0 (new_pairs i))).
+(* best score (tie-breaker included), number of assignments attaining it exactly, the first such assignment, and the best
+   score with the tie-breaker left out (the objective the property speaks about) *)
+Definition optimum (c : consts) (i : inst) : option (Q * Z * assignment * Q) :=
   fold_left (fun best asg =>
-      if admissible i asg then
-        match score c i true asg, best with
-        | Some q, None => Some (q, 1, asg)
-        | Some q, Some (b, n, w) => if Qltb q b then Some (q, 1, asg) else if Qeqb q b then Some (b, n + 1, w) else best
-        | None, _ => best
+      if admissible_core i asg then
+        match score c i false asg with
+        | Some q0 =>
+            let q := (q0 + i_add i * tie_extra c i asg)%Q in
+            match best with
+            | None => Some (q, 1, asg, q0)
+            | Some (b, n, w, b0) =>
+                let b0' := Qmin' b0 q0 in
+                if Qltb q b then Some (q, 1, asg, b0') else if Qeqb q b then Some (b, n + 1, w, b0') else Some (b, n, w, b0')
+            end
+        | None => best
         end
       else best) (candidates i) None.
 
-(* ---- read-out (minor.py:488-505): variants whose observed copies equal the total copy number are added to every
-        selected allele that could carry them ---- *)
+(* ---- read-out (minor.py:488-505).  AsShipped: variants whose observed copies equal the total copy number are added to
+        every selected allele that could carry them, after the solve and without re-checking any rule ("HACK: add
+        homozygous mutation to _all_ alleles").  Fixed: the solver's assignment is reported as it is. ---- *)
+Inductive rvariant := AsShipped | Fixed.
 Definition homozygous (c : consts) (i : inst) (m : mutn) : bool :=
   Qleb (Qabs' (obs_mut m - i_maxcn i)) (c_homozygous_eps c).
-Definition readout_ch (c : consts) (i : inst) (ch : choice) : choice :=
-  {| ch_a := ch_a ch; ch_keep := ch_keep ch;
-     ch_add := map m_id (filter (fun m => added ch m || homozygous c i m) (news i (ch_a ch))) |}.
-Definition readout (c : consts) (i : inst) (asg : assignment) : assignment := map (readout_ch c i) asg.
+Definition readout_ch (v : rvariant) (c : consts) (i : inst) (ch : choice) : choice :=
+  match v with
+  | Fixed => ch
+  | AsShipped =>
+      {| ch_a := ch_a ch; ch_keep := ch_keep ch;
+         ch_add := map m_id (filter (fun m => added ch m || homozygous c i m) (news i (ch_a ch))) |}
+  end.
+Definition readout (v : rvariant) (c : consts) (i : inst) (asg : assignment) : assignment := map (readout_ch v c i) asg.
 
 (* ---- the clauses of the property on a reported assignment ---- *)
 Definition cl_one_minor (i : inst) (asg : assignment) : bool := sel_ok i asg.
@@ -167,6 +185,88 @@ Definition clauses (i : inst) (asg : assignment) : list bool :=
   [cl_one_minor i asg; cl_core_kept i asg; cl_add_copies i asg; cl_add_reads i asg; cl_carried_reads i asg;
    cl_one_per_site i asg; cl_supported i asg].
 
+(* ---- the score of a POINT of the ILP, written over its selector values only (A, K, N, PH): what the objective of
+        MinorModel.gen amounts to once every helper variable (products, error terms, absolute values, OR variables) is
+        eliminated.  MinorProofs.minor_objective relates it to [objective (gen c i)]. ---- *)
+Definition carr (x : asg) (i : inst) (m : mutn) : Q :=                      (* copies carrying variant m *)
+  qsum (map (fun a => if in_def a m then x (kK a m) else if has_cov a (m_pos m) then x (kN a m) else 0%Q) (insts i)).
+Definition refc_a (x : asg) (i : inst) (pos : Z) (a : ainst) : Q :=          (* reference copies contributed by one allele copy *)
+  if has_cov a pos then
+    match nonins_at pos (defs i a) with
+    | [p] => (x (kA a) - x (kK a p))%Q
+    | _ => (x (kA a) - qsum (map (fun m => x (kN a m)) (nonins_at pos (news i a))))%Q
+    end
+  else 0%Q.
+Definition refc (x : asg) (i : inst) (pos : Z) : Q := qsum (map (refc_a x i pos) (insts i)).
+Definition pt_fit (x : asg) (i : inst) : Q :=
+  (qsum (map (fun m => Qabs' (obs_mut m - carr x i m)) (i_muts i)) +
+   qsum (map (fun s => Qabs' (obs_site s - refc x i (s_pos s))) (i_sites i)))%Q.
+Definition pt_dropped (x : asg) (i : inst) : Q :=                            (* definition variants dropped on selected copies *)
+  qsum (map (fun a => qsum (map (fun m => (x (kA a) - x (kK a m))%Q) (defs i a))) (insts i)).
+Definition pt_added (c : consts) (x : asg) (i : inst) : Q :=                 (* additions, each weighted 1 + index / tie_den *)
+  qsum (map (fun kp : Z * (ainst * mutn) =>
+               ((1 + inject_Z (fst kp) / c_minor_tie_den c) * x (kN (fst (snd kp)) (snd (snd kp))))%Q)
+            (enumerate 0 (new_pairs i))).
+Definition qmax_list (l : list Q) : Q := fold_right Qmax' 0%Q l.
+Definition pt_novel (x : asg) (i : inst) : Q :=                              (* functional variants added to some copy *)
+  qsum (map (fun m => qmax_list (map x (vo_vars i m))) (vo_muts i)).
+Definition pt_phase_a (x : asg) (i : inst) (ri : Z) (r : mode) (a : ainst) : Q :=
+  if ph_active i a r then
+    (x (kPH a ri) * (qsum (map (fun v => (1 - x v)%Q) (ph_pos i a r)) + qsum (map x (ph_neg i a r))))%Q
+  else 0%Q.
+Definition pt_phase (x : asg) (i : inst) : Q :=                              (* read modes times disagreeing sites of the chosen copy *)
+  qsum (map (fun rm : Z * (mode * Z) =>
+               (inject_Z (snd (snd rm)) * qsum (map (pt_phase_a x i (fst rm) (fst (snd rm))) (insts i)))%Q)
+            (enumerate 0 (modes i))).
+Definition pt_score (c : consts) (x : asg) (i : inst) : Q :=
+  (pt_fit x i + i_miss i * pt_dropped x i + i_add i * pt_added c x i +
+   i_add i / c_minor_vnewor_div c * pt_novel x i + i_phase i * pt_phase x i)%Q.
+
+(* ---- the canonical point of an assignment: selectors as the assignment says, every helper variable at the value the
+        rows force (products, error terms, OR variables), absolute values tight, each read mode on the first selected
+        copy with the fewest disagreements.  Executable; the harness evaluates [feasibleb (gen c i) (point_of c i a)] and
+        the objective there on every instance (the direction "admissible => feasible with objective = score"). ---- *)
+Definition sel_on (asg : assignment) (a : ainst) : bool := match find_ch asg a with Some _ => true | None => false end.
+Definition kept_on (asg : assignment) (a : ainst) (m : mutn) : bool :=
+  match find_ch asg a with Some ch => kept ch m | None => false end.
+Definition added_on (asg : assignment) (a : ainst) (m : mutn) : bool :=
+  match find_ch asg a with Some ch => added ch m | None => false end.
+Definition ph_choice (i : inst) (asg : assignment) (r : mode) : option ainst :=
+  let act := filter (fun ch => ph_active i (ch_a ch) r) asg in
+  match qmin_list (map (fun ch => mismatches i ch r) act) with
+  | None => None
+  | Some q => match find (fun ch => Qeqb (mismatches i ch r) q) act with Some ch => Some (ch_a ch) | None => None end
+  end.
+Definition point_list (c : consts) (i : inst) (asg : assignment) : list (vkey * Q) :=
+  let base :=
+    map (fun a => (kA a, b2q (sel_on asg a))) (insts i) ++
+    flat_map (fun a => flat_map (fun m => [(kK a m, b2q (kept_on asg a m)); (kMK a m, b2q (kept_on asg a m))]) (defs i a)) (insts i) ++
+    flat_map (fun a => flat_map (fun m => [(kN a m, b2q (added_on asg a m)); (kMN a m, b2q (added_on asg a m))]) (news i a)) (insts i) in
+  let x0 := asg_of base in
+  let errs := map (fun m => (kE m, (obs_mut m - carr x0 i m)%Q)) (i_muts i) ++
+              map (fun s => (kR s, (obs_site s - refc x0 i (s_pos s))%Q)) (i_sites i) in
+  let abss := map (fun kv : vkey * Q => (abs_key (fst kv), Qabs' (snd kv))) errs in
+  let vos := map (fun m => (kVO m, qmax_list (map x0 (vo_vars i m)))) (vo_muts i) in
+  let phs :=
+    flat_map (fun rm : Z * (mode * Z) =>
+      let ri := fst rm in let r := fst (snd rm) in
+      flat_map (fun a =>
+        if ph_active i a r then
+          let p := b2q (match ph_choice i asg r with Some a' => ainst_eqb a a' | None => false end) in
+          (kPH a ri, p) ::
+          map (fun jv : Z * vkey => (kP2 a ri (fst jv), (p * x0 (snd jv))%Q)) (enumerate 0 (ph_pos i a r)) ++
+          map (fun jv : Z * vkey => (kP3 a ri (fst jv), (p * x0 (snd jv))%Q)) (enumerate 0 (ph_neg i a r))
+        else []) (insts i)) (enumerate 0 (modes i)) in
+  base ++ errs ++ abss ++ vos ++ phs.
+Definition point_of (c : consts) (i : inst) (asg : assignment) : Lp.asg := asg_of (point_list c i asg).
+
+(* ---- the assignment an ILP point denotes (minor.py:478-495: getValue(VA) > 0, missing = K off, added = N on) ---- *)
+Definition on (x : Lp.asg) (k : vkey) : bool := Qeqb (x k) 1.
+Definition point_asg (i : inst) (x : Lp.asg) : assignment :=
+  map (fun a => {| ch_a := a; ch_keep := map m_id (filter (fun m => on x (kK a m)) (defs i a));
+                   ch_add := map m_id (filter (fun m => on x (kN a m)) (news i a)) |})
+      (filter (fun a => on x (kA a)) (insts i)).
+
 (* ---- harness interface ---- *)
 Definition lookup_cand (i : inst) (cid : Z) : option cand := find (fun c => c_id c =? cid) (i_cands i).
 Definition mk_asg (i : inst) (l : list (Z * Z * list Z * list Z)) : option assignment :=
@@ -179,16 +279,47 @@ Definition mk_asg (i : inst) (l : list (Z * Z * list Z * list Z)) : option assig
 Definition o_choice (ch : choice) : out :=
   OL [OZ (c_id (fst (ch_a ch))); OZ (snd (ch_a ch)); OL (map OZ (ch_keep ch)); OL (map OZ (ch_add ch))].
 Definition o_asg (a : assignment) : out := o_list o_choice a.
-Definition o_optimum (c : consts) (i : inst) : out :=
-  match optimum c i with
-  | Some (q, n, w) => OL [o_q q; OZ n; o_asg w]
-  | None => OL []
-  end.
 (* everything the harness asks about one assignment: admissible, score with tie, score without tie, clause booleans,
    the read-out of it *)
-Definition o_eval (c : consts) (i : inst) (l : list (Z * Z * list Z * list Z)) : out :=
+Definition o_eval (v : rvariant) (c : consts) (i : inst) (l : list (Z * Z * list Z * list Z)) : out :=
   match mk_asg i l with
   | None => OL []
   | Some asg => OL [o_bool (admissible i asg); o_opt o_q (score c i true asg); o_opt o_q (score c i false asg);
-                    OL (map o_bool (clauses i asg)); o_asg (readout c i asg)]
+                    OL (map o_bool (clauses i asg)); o_asg (readout v c i asg)]
   end.
+(* the canonical point of an assignment: feasible? objective there *)
+Definition o_point (c : consts) (i : inst) (l : list (Z * Z * list Z * list Z)) : out :=
+  match mk_asg i l with
+  | None => OL []
+  | Some a => let x := point_of c i a in OL [o_bool (feasibleb (gen c i) x); o_q (objective (gen c i) x)]
+  end.
+Definition o_optimum (c : consts) (i : inst) : out :=
+  match optimum c i with
+  | Some (q, n, w, q0) => let x := point_of c i w in
+                          OL [o_q q; OZ n; o_asg w; o_bool (feasibleb (gen c i) x); o_q (objective (gen c i) x); o_q q0]
+  | None => OL []
+  end.
+
+(* ---- witness instances (TOY gene).  The text between the markers is what harness/c04.py:witness_terms produces from the
+        implementation's own objects for its cases WITNESS_A / WITNESS_C / WITNESS_P (variants renumbered in (position,
+        operation) order); the harness compares the two on every run and replays the cases on the implementation.
+        witness_a: *1/*3, novel 147.A>C, insA seen on every read; witness_c: *1/*2, insTT seen on every read;
+        witness_p: *1/*3 with four phased fragments. ---- *)
+(* BEGIN witness_a *)
+Definition witness_a : inst :=
+  {| i_muts := [{| m_id := 0; m_pos := 100000114; m_op := 3; m_ins := false; m_func := false; m_cov := (0 # 1)%Q; m_total := (40 # 1)%Q; m_pcn := (2 # 1)%Q |}; {| m_id := 1; m_pos := 100000147; m_op := 1; m_ins := false; m_func := false; m_cov := (20 # 1)%Q; m_total := (40 # 1)%Q; m_pcn := (2 # 1)%Q |}; {| m_id := 2; m_pos := 100000147; m_op := 4; m_ins := true; m_func := false; m_cov := (40 # 1)%Q; m_total := (40 # 1)%Q; m_pcn := (2 # 1)%Q |}; {| m_id := 3; m_pos := 100000150; m_op := 2; m_ins := false; m_func := true; m_cov := (20 # 1)%Q; m_total := (40 # 1)%Q; m_pcn := (2 # 1)%Q |}]; i_sites := [{| s_pos := 100000114; s_pcn := (2 # 1)%Q; s_cov := (40 # 1)%Q; s_total := (40 # 1)%Q |}; {| s_pos := 100000147; s_pcn := (2 # 1)%Q; s_cov := (20 # 1)%Q; s_total := (40 # 1)%Q |}; {| s_pos := 100000150; s_pcn := (2 # 1)%Q; s_cov := (20 # 1)%Q; s_total := (40 # 1)%Q |}]; i_cands := [{| c_id := 0; c_major := 0; c_def := []; c_core := []; c_covpos := [100000114; 100000147; 100000150] |}; {| c_id := 1; c_major := 0; c_def := [0]; c_core := []; c_covpos := [100000114; 100000147; 100000150] |}; {| c_id := 2; c_major := 1; c_def := [2; 3]; c_core := [3]; c_covpos := [100000114; 100000147; 100000150] |}]; i_majors := [(0, 1); (1, 1)]; i_phases := None; i_miss := (3 # 2)%Q; i_add := (1 # 1)%Q; i_phase := (2 # 5)%Q; i_phase_vars := 3000; i_maxcn := (2 # 1)%Q |}.
+Definition witness_a_solver : list (Z * Z * list Z * list Z) := [(0, 0, [], [1]); (2, 0, [2; 3], [])].
+(* END witness_a *)
+(* BEGIN witness_c *)
+Definition witness_c : inst :=
+  {| i_muts := [{| m_id := 0; m_pos := 100000110; m_op := 2; m_ins := false; m_func := true; m_cov := (20 # 1)%Q; m_total := (40 # 1)%Q; m_pcn := (2 # 1)%Q |}; {| m_id := 1; m_pos := 100000114; m_op := 1; m_ins := false; m_func := false; m_cov := (0 # 1)%Q; m_total := (40 # 1)%Q; m_pcn := (2 # 1)%Q |}; {| m_id := 2; m_pos := 100000118; m_op := 3; m_ins := true; m_func := true; m_cov := (40 # 1)%Q; m_total := (40 # 1)%Q; m_pcn := (2 # 1)%Q |}]; i_sites := [{| s_pos := 100000110; s_pcn := (2 # 1)%Q; s_cov := (20 # 1)%Q; s_total := (40 # 1)%Q |}; {| s_pos := 100000114; s_pcn := (2 # 1)%Q; s_cov := (40 # 1)%Q; s_total := (40 # 1)%Q |}; {| s_pos := 100000118; s_pcn := (2 # 1)%Q; s_cov := (40 # 1)%Q; s_total := (40 # 1)%Q |}]; i_cands := [{| c_id := 0; c_major := 0; c_def := []; c_core := []; c_covpos := [100000110; 100000114; 100000118] |}; {| c_id := 1; c_major := 0; c_def := [1]; c_core := []; c_covpos := [100000110; 100000114; 100000118] |}; {| c_id := 2; c_major := 1; c_def := [0; 2]; c_core := [0; 2]; c_covpos := [100000110; 100000114; 100000118] |}]; i_majors := [(0, 1); (1, 1)]; i_phases := None; i_miss := (3 # 2)%Q; i_add := (1 # 1)%Q; i_phase := (2 # 5)%Q; i_phase_vars := 3000; i_maxcn := (2 # 1)%Q |}.
+Definition witness_c_solver : list (Z * Z * list Z * list Z) := [(0, 0, [], []); (2, 0, [0; 2], [])].
+(* END witness_c *)
+(* BEGIN witness_p *)
+Definition witness_p : inst :=
+  {| i_muts := [{| m_id := 0; m_pos := 100000114; m_op := 2; m_ins := false; m_func := false; m_cov := (20 # 1)%Q; m_total := (40 # 1)%Q; m_pcn := (2 # 1)%Q |}; {| m_id := 1; m_pos := 100000147; m_op := 3; m_ins := true; m_func := false; m_cov := (20 # 1)%Q; m_total := (40 # 1)%Q; m_pcn := (2 # 1)%Q |}; {| m_id := 2; m_pos := 100000150; m_op := 1; m_ins := false; m_func := true; m_cov := (20 # 1)%Q; m_total := (40 # 1)%Q; m_pcn := (2 # 1)%Q |}]; i_sites := [{| s_pos := 100000114; s_pcn := (2 # 1)%Q; s_cov := (20 # 1)%Q; s_total := (40 # 1)%Q |}; {| s_pos := 100000147; s_pcn := (2 # 1)%Q; s_cov := (40 # 1)%Q; s_total := (40 # 1)%Q |}; {| s_pos := 100000150; s_pcn := (2 # 1)%Q; s_cov := (20 # 1)%Q; s_total := (40 # 1)%Q |}]; i_cands := [{| c_id := 0; c_major := 0; c_def := []; c_core := []; c_covpos := [100000114; 100000147; 100000150] |}; {| c_id := 1; c_major := 0; c_def := [0]; c_core := []; c_covpos := [100000114; 100000147; 100000150] |}; {| c_id := 2; c_major := 1; c_def := [1; 2]; c_core := [2]; c_covpos := [100000114; 100000147; 100000150] |}]; i_majors := [(0, 1); (1, 1)]; i_phases := (Some [[(100000114, 2); (100000150, 0)]; [(100000114, 0); (100000150, 1)]; [(100000147, 3); (100000150, 1)]; [(100000114, 2); (100000150, 0)]]); i_miss := (3 # 2)%Q; i_add := (1 # 1)%Q; i_phase := (2 # 5)%Q; i_phase_vars := 3000; i_maxcn := (2 # 1)%Q |}.
+Definition witness_p_solver : list (Z * Z * list Z * list Z) := [(1, 0, [0], []); (2, 0, [1; 2], [])].
+(* END witness_p *)
+Definition solver_asg (i : inst) (l : list (Z * Z * list Z * list Z)) : assignment :=
+  match mk_asg i l with Some a => a | None => [] end.
+
